@@ -814,8 +814,9 @@ def run_round(ctx, impl, model, cases, stats, seen, samples, compile_n, label):
             stats['distinct'] += 1
             if nontrivial(c):
                 stats['distinct_nontrivial'] += 1
-        if len(samples) < 8 and nontrivial(c) and (i % 37 == 0 or 'src' in c):
-            samples.append({'case': case_line(c), 'implementation': got[i]})
+        if nontrivial(c) and ((label == 'corpus' and len(samples) < 2 and i % 9 == 0) or
+                              (label != 'corpus' and len(samples) < 10 and i % 97 == 0)):
+            samples.append({'from': c.get('src', label), 'case': case_line(c), 'implementation': got[i]})
         if c['kind'] == 'W':
             names = c['names']
             stats['W'] += 1
@@ -1041,7 +1042,7 @@ def main():
                 'vlib.Rng(VERIF_SEED); distinct = distinct canonical case lines (sha1); non-trivial W = two names of the set start '
                 'with the same character (shared or colliding prefix), non-trivial S = at least one class expected and at '
                 'least one keyword / template / std:: / function type in the description',
-        'samples': samples[:8], 'input_distribution': dist, 'exhaustive': bool(T and stats['exhaustive_sets'] > 0),
+        'samples': samples[:10], 'input_distribution': dist, 'exhaustive': bool(T and stats['exhaustive_sets'] > 0),
         'oracle_failures': stats['oracle_failures'],
     }, assumptions=[
         'the hand-written scanner of Model/FwdDecl.v stands for std::regex on `(\\w+(?:::\\w+)*)( *<)?` (C locale): tied by differential runs and C19_regex_unchanged only',
